@@ -33,6 +33,22 @@ theorem deleteTable_covers_controls :
     ∀ n, n < 256 → (n < 32 ∨ n = 127) → deleteBytes.contains (UInt8.ofNat n) = true := by
   decide +kernel
 
+/-- the switches the model relies on, as found in the live module: bytes that are not deleted are
+    left unchanged by the translate step; Latin-1 is the only codec tried first; the class-level
+    protocol is (1, 1) and RFC 2047 is on (so `encode` never raises) -/
+theorem tables_as_modelled :
+    translateIdentityElsewhere = true ∧ encodingsLatin1Only = true ∧ classProtocol11 = true ∧
+    useRfc2047 = true := by decide
+
+/-- `encode` never raises `ValueError` (consequence of the switches above) -/
+theorem encode_total (s : Text) : ∃ v, encode s = .ok v := by
+  unfold encode
+  split
+  · exact ⟨_, rfl⟩
+  · split
+    · exact ⟨_, rfl⟩
+    · rename_i h; exact absurd (by decide) h
+
 theorem deleteCtl_clean (bs : Bytes) : ∀ b ∈ deleteCtl bs, Clean b := by
   intro b hb
   simp only [deleteCtl, List.mem_filter] at hb
